@@ -12,7 +12,7 @@ from ..loader import AnalysisError
 from .valeq import check_typed_identity, check_json_bytes, check_enum_distinct
 from .c16 import sibling_reference_sites
 from .ladders import (extract_ladder, check_ladder_order, repo_subclass_pairs, handler_ladder, dispatch_model, _bound_value, _literal_seq,
-                      table_entries, _Unsupported)
+                      table_entries, _Unsupported, subst, sequence_elements)
 from . import partition_model as PM
 
 RL = "runner_local.memento_run_local"
@@ -614,6 +614,8 @@ def strategy_table(fa):
         elif isinstance(n, ast.Assign) and len(n.targets) == 1 and isinstance(n.targets[0], ast.Subscript):
             pairs.append((n.targets[0].slice, n.value, ids[0]))
     table = {}
+    # in source order: a later entry for the same member replaces an earlier one
+    pairs.sort(key=lambda kv_: (getattr(kv_[0], "lineno", 0) or getattr(kv_[1], "lineno", 0), getattr(kv_[0], "col_offset", 0)))
     for (k, v, at) in pairs:
         for kv in possible_values(fa, k, at):
             dk = A.dotted(kv)
@@ -1157,49 +1159,227 @@ def check_exception_surface(ck, R):
     """The exception object produced by the runner is raised to the caller of call(); the stored
     form of an exception is read with the keys it is written with."""
     cl = FA(ck, "base.MementoFunctionBase.call")
-    raises = [r for r in cl.stmts(ast.Raise) if r.exc is not None and cl.nodes(r)]
-    ok = False
-    for r in raises:
-        # the raise is reached exactly when the slot holds an exception, and raises that slot
-        conds = cl.conditions(r)
-        want = ("isinstance(%s, Exception)" % cl.xnorm(r.exc), True)
-        if conds and all(want in c for c in conds) and "op:subscript" in cl.deps(r.exc) and "call:memento_run_batch" in cl.deps(r.exc):
-            ok = True
+    # Decided on the path classes of call() over the symbolic store: the single slot of the one-element batch is
+    # `memento_run_batch(...)[0]` however it is taken out (subscript, unpacking `(r,) = results`, temporaries, a helper);
+    # every value call() returns is that slot on a path that has seen `isinstance(<slot>, Exception)` answer no, and
+    # the slot is raised where the test answered yes.
+    def is_slot(e):
+        return isinstance(e, ast.Subscript) and A.norm(e.slice) in ("0", "-1") and _is_call_to(e.value, "memento_run_batch")
+
+    def exc_test_on(e, slot_text):
+        it = A.isinstance_types(e)
+        return bool(it) and it[0] == slot_text and any(t.split(".")[-1] in ("Exception", "BaseException") for t in it[1])
+
+    def watch_exc(tx, e):
+        it = A.isinstance_types(e)
+        return bool(it) and "memento_run_batch(" in it[0]
+
+    S = Sym(cl, watch=watch_exc)
+    rstates = S.return_states()
+    okr = bool(rstates) and all(is_slot(_parse(v)) for (_r, _env, _lits, v) in rstates)
+    falls = [s_ for (s_, l_) in cl.cfg.pred[cl.cfg.exit] if not isinstance(cl.cfg.node(s_).ast, ast.Return) and s_ in S.states]
+    sorted_out = okr and not falls and all(any((not p) and not tx.startswith("@") and exc_test_on(_parse(tx), v) for (tx, p) in lits)
+                                           for (_r, _env, lits, v) in rstates)
+    raised = False
+    for r in cl.stmts(ast.Raise):
+        if r.exc is None:
+            continue
+        for (env, lits) in S.at(r):
+            x = S.text(r.exc, env)
+            if is_slot(_parse(x)) and any(p and not tx.startswith("@") and exc_test_on(_parse(tx), x) for (tx, p) in lits):
+                raised = True
+    ok = sorted_out and raised
     ck.ob(R, cl.key(None, "raises-result-exception"), ok, "call() raises the exception found in its result slot" if ok else
           "call() does not raise an exception returned in its result slot: a failing (or replayed failing) call returns the exception object as a value", cl.where())
-    rets = [r for r in cl.returns() if r.value is not None]
-    okr = bool(rets) and all("call:memento_run_batch" in cl.deps(r.value) and "op:subscript" in cl.deps(r.value) for r in rets)
     ck.ob(R, cl.key(None, "returns-slot-0"), okr, "call() returns slot 0 of the one-element batch" if okr else "call() does not return the single batch slot", cl.where())
     enc = FA(ck, "storage_base.DefaultCodec.JsonExceptionStrategy.encode")
     ld = FA(ck, "storage_base.DefaultCodec.JsonExceptionStrategy.load")
-    wk = set()
-    for d in [n for n in A.walk_body(enc.node) if isinstance(n, ast.Dict)]:
-        wk |= {A.const_str(k) for k in d.keys if A.const_str(k)}
-    rk = {A.const_str(n.slice) for n in A.walk_body(ld.node) if isinstance(n, ast.Subscript) and A.const_str(n.slice)}
+    # what is written: the entries of the mapping given to json.dumps, however it is put together (display, dict(k=v),
+    # comprehension over a literal tuple of field names, filled key by key)
+    written = None
+    for c in enc.calls("dumps") + enc.calls("dump"):
+        if c.args and enc.nodes(c):
+            written = mapping_built(enc, c.args[0], enc.nodes(c)[0])
+            break
+    ck.need(written is not None, "JsonExceptionStrategy.encode: the document given to json.dumps is not understood")
+    wmap = {}
+    for (k, v, at) in written:
+        if A.const_str(k):
+            wmap[A.const_str(k)] = (v, at)
+    wk = set(wmap)
+    # what is read, and into which constructor parameter: every argument of MementoException(...) in load, followed through
+    # temporaries, unpacking, *sequence and **mapping arguments built over a literal tuple of field names
+    ctor = ld.one(ld.calls("MementoException"), "MementoException(...) in load")
+    at_c = ld.one(ld.nodes(ctor)[:1], "reachable MementoException(...) in load")
+    want_order = ["exception_name", "message", "stack_trace"]
+    fed = ctor_arguments(ld, ctor, at_c, want_order)
+    ck.need(fed is not None, "JsonExceptionStrategy.load: arguments of MementoException(...) not understood")
+    order, rk = [], set()
+    for nm in want_order:
+        key = None
+        if nm in fed:
+            (a, at) = follow_value(ld, fed[nm][0], fed[nm][1])
+            if isinstance(a, ast.Subscript):
+                (sl, _at) = follow_value(ld, a.slice, at)
+                key = A.const_str(sl)
+        order.append(key)
+        if key:
+            rk.add(key)
+    # other keyed reads of the loaded document
+    rk |= {A.const_str(n.slice) for n in A.walk_body(ld.node) if isinstance(n, ast.Subscript) and A.const_str(n.slice)}
+    rk |= {A.const_str(c.args[0]) for c in ld.calls("get") if c.args and A.const_str(c.args[0])}
     okk = wk == rk and len(wk) == 3
     ck.ob(R, enc.key(None, "exception-fields"), okk, "stored exceptions are read with the fields they are written with %s" % sorted(wk) if okk else
           "stored exception fields differ: written %s, read %s" % (sorted(wk), sorted(rk)), enc.where())
-    ctor = ld.one(ld.calls("MementoException"), "MementoException(...) in load")
-    want_order = ["exception_name", "message", "stack_trace"]
-    order = []
-    for i, nm in enumerate(want_order):
-        a = A.arg_or_kw(ctor, i, nm)
-        a = ld.expand(a) if a is not None else None
-        order.append(A.const_str(a.slice) if isinstance(a, ast.Subscript) else None)
     oko = order == want_order
     ck.ob(R, ld.key(ctor, "field-order"), oko, "name, message and stack trace are restored in their positions" if oko else
           "MementoException is rebuilt with fields in the wrong positions: %s" % order, ld.where(ctor))
     enc_obj = (enc.fi.params + ["obj", "obj"])[1]
-    msg = [k for d in [n for n in A.walk_body(enc.node) if isinstance(n, ast.Dict)] for k, v in zip(d.keys, d.values)
-           if A.const_str(k) == "message" and enc.nodes(v) and enc.xnorm(v) == enc_obj + ".message"]
+    msg = False
+    if "message" in wmap:
+        (mv, mat) = follow_value(enc, wmap["message"][0], wmap["message"][1])
+        msg = A.norm(subst(mv, {})) == enc_obj + ".message"
     ck.ob(R, enc.key(None, "message-preserved"), bool(msg), "the original message is stored" if msg else "the stored exception does not keep obj.message", enc.where())
+    # values: written by pickling exactly the object, read by unpickling
     vp = FA(ck, "storage_base.DefaultCodec.ValuePickleStrategy.encode")
     vl = FA(ck, "storage_base.DefaultCodec.ValuePickleStrategy.load")
     vp_obj = (vp.fi.params + ["obj", "obj"])[1]
-    okp = any(A.call_dotted(c) == "pickle.dumps" and c.args and vp.xnorm(c.args[0]) == vp_obj for c in vp.calls()) and \
-        any(A.call_dotted(c) == "pickle.loads" for c in vl.calls()) and all(("call:dumps" in vp.deps(r.value)) for r in vp.returns() if r.value is not None)
+    pickled, sinks = [], set()
+    for c in vp.calls():
+        d = A.call_dotted(c) or ""
+        recv = A.call_recv(c)
+        if d in ("pickle.dumps", "dumps") and c.args:
+            pickled.append((c, c.args[0], None))
+        elif d in ("pickle.dump", "dump") and len(c.args) >= 2:
+            pickled.append((c, c.args[0], c.args[1]))
+        elif A.call_attr(c) == "dump" and isinstance(recv, (ast.Call, ast.Name)) and c.args and vp.nodes(c):
+            pk = vp.expand(recv) if isinstance(recv, ast.Name) else recv
+            if isinstance(pk, ast.Call) and A.call_attr(pk) in ("Pickler", "_Pickler") and pk.args:
+                pickled.append((c, c.args[0], pk.args[0]))
+    okp = bool(pickled) and all(vp.nodes(c) and vp.xnorm(a) == vp_obj for (c, a, _s) in pickled)
+    rets_p = [r for r in vp.returns() if r.value is not None]
+    for r in rets_p:
+        deps = vp.deps(r.value)
+        via_value = "call:dumps" in deps
+        via_sink = any(sk is not None and vp.nodes(c) and (set(vp.deps(sk, vp.nodes(c)[0])) & deps) - {"param:self"} for (c, _a, sk) in pickled)
+        okp = okp and (via_value or via_sink)
+    okp = okp and bool(rets_p)
+
+    def unpickles(fa_):
+        for c in fa_.calls():
+            d = A.call_dotted(c) or ""
+            if d in ("pickle.loads", "pickle.load", "loads") or (A.call_attr(c) == "load" and isinstance(A.call_recv(c), ast.Call) and A.call_attr(A.call_recv(c)) in ("Unpickler", "_Unpickler")):
+                return True
+        return False
+
+    okl = unpickles(vl)
+    if not okl:
+        # one level of delegation to a method of the strategy (load -> decode)
+        for c in vl.calls():
+            m, _off = _own_method(ck.repo, vl.fi.cls, c, (vl.fi.params or ["self"])[0]) if vl.fi.cls is not None else (None, 0)
+            if m is not None and unpickles(FA(ck, m)):
+                okl = True
+    okp = okp and okl
     ck.ob(R, vp.key(None, "pickle-pair"), okp, "values are stored with pickle.dumps(obj) and read with pickle.loads" if okp else
           "the value strategy no longer pairs pickle.dumps(obj) with pickle.loads", vp.where())
+
+
+def follow_value(fa, e, at, depth=0):
+    """(expression, node) a local name stands for: its single plain assignment, or its element of a tuple-unpacked
+    sequence that is understood (display / comprehension over a literal sequence); other expressions are returned as is."""
+    while isinstance(e, ast.Name) and fa.df.is_local(e.id) and depth < 8 and at is not None:
+        ds = fa.df.reaching(at, e.id)
+        if len(ds) != 1:
+            break
+        d = ds[0]
+        if d.kind == "assign" and d.value is not None:
+            e, at = d.value, d.node
+        elif d.kind == "unpack" and isinstance(d.stmt, ast.Assign):
+            nxt = None
+            for t in d.stmt.targets:
+                if isinstance(t, (ast.Tuple, ast.List)):
+                    idx = [i for i, x in enumerate(t.elts) if isinstance(x, ast.Name) and x.id == e.id]
+                    elems = sequence_elements(fa, d.stmt.value, d.node)
+                    if idx and elems is not None and len(elems) == len(t.elts):
+                        nxt = elems[idx[0]]
+            if nxt is None:
+                break
+            e, at = nxt, d.node
+        else:
+            break
+        depth += 1
+    return e, at
+
+
+def ctor_arguments(fa, call, at, params):
+    """{parameter: (expression, node)} of a call to a constructor with the given positional parameters: positional and keyword
+    arguments, `*seq` and `**mapping` arguments whose elements are evident.  None when an argument is not understood."""
+    out, pos = {}, 0
+    for a in call.args:
+        if isinstance(a, ast.Starred):
+            elems = sequence_elements(fa, a.value, at)
+            if elems is None:
+                return None
+            for el in elems:
+                if pos < len(params):
+                    out[params[pos]] = (el, at)
+                pos += 1
+        else:
+            if pos < len(params):
+                out[params[pos]] = (a, at)
+            pos += 1
+    for k in call.keywords:
+        if k.arg is None:
+            ent = table_entries(fa, k.value, at)
+            if ent is None:
+                return None
+            for (kk, v) in ent:
+                if A.const_str(kk) is None:
+                    return None
+                out[A.const_str(kk)] = (v, at)
+        else:
+            out[k.arg] = (k.value, at)
+    return out
+
+
+def mapping_built(fa, expr, at):
+    """[(key, value, node)] of the mapping `expr` holds at `at`: the entries of the expression that creates it, followed (for
+    a local name) by the `name[k] = v` and `name.update(m)` statements of the function, in source order.  None if not understood."""
+    if isinstance(expr, ast.Name) and fa.df.is_local(expr.id):
+        ds = fa.df.reaching(at, expr.id)
+        if len(ds) != 1 or ds[0].kind != "assign" or ds[0].value is None:
+            return None
+        v0 = ds[0].value
+        empty = (isinstance(v0, ast.Dict) and not v0.keys) or (isinstance(v0, ast.Call) and A.call_dotted(v0) in ("dict", "OrderedDict", "collections.OrderedDict")
+                                                              and not v0.args and not v0.keywords)
+        base = [] if empty else table_entries(fa, v0, ds[0].node)
+        if base is None:
+            return None
+        out = [(k, v, ds[0].node) for (k, v) in base]
+        later = []
+        for st in A.all_stmts(fa.node):
+            ids = fa.nodes(st)
+            if not ids:
+                continue
+            if isinstance(st, ast.Assign) and len(st.targets) == 1 and isinstance(st.targets[0], ast.Subscript) \
+                    and isinstance(st.targets[0].value, ast.Name) and st.targets[0].value.id == expr.id:
+                later.append((st.lineno, [(st.targets[0].slice, st.value, ids[0])]))
+            elif isinstance(st, ast.Expr) and isinstance(st.value, ast.Call) and A.call_attr(st.value) == "update" \
+                    and isinstance(A.call_recv(st.value), ast.Name) and A.call_recv(st.value).id == expr.id:
+                c = st.value
+                ent = []
+                if c.args:
+                    e0 = table_entries(fa, c.args[0], ids[0])
+                    if e0 is None:
+                        return None
+                    ent += e0
+                ent += [(ast.Constant(value=k.arg), k.value) for k in c.keywords if k.arg is not None]
+                later.append((st.lineno, [(k, v, ids[0]) for (k, v) in ent]))
+        for (_ln, ent) in sorted(later, key=lambda x: x[0]):
+            out += ent
+        return out
+    ent = table_entries(fa, expr, at)
+    return None if ent is None else [(k, v, at) for (k, v) in ent]
 
 
 def check_frame_rule(ck, R):
